@@ -279,8 +279,9 @@ pub fn p07(a: u64, b: u64) -> u64 { let mut order = names(a, b); let doomed: Vec
 pub fn p08(a: u64, b: u64) -> u64 { const TABLE: [(&str, u64); 4] = [("fifo", 0), ("lru", 1), ("lfu", 2), ("arc", 3)]; let name = ["lru", "ARC", "nope", "fifo"][(a % 4) as usize].to_lowercase(); let v = TABLE.iter().find(|(n, _)| *n == name).map_or(1, |(_, v)| *v); let ks = seq(a, b); let w: u64 = ks.iter().zip(1usize..).map(|(k, pos)| k * pos as u64).sum(); let first_big = ks.iter().zip(1u64..).find(|(k, _)| **k > 5).map_or(0, |(_, pos)| pos); v + w * 10 + first_big * 100000 }
 pub fn p09(a: u64, b: u64) -> u64 { let v = seq(a, b); let r = v.iter().copied().reduce(|x, y| if y < x { y } else { x }).unwrap_or(0); let fm: u64 = v.iter().flat_map(|x| opt(*x)).sum(); let keep = opt(a).filter(|x| *x > 4).is_none(); let mut i = 0; let mut acc = 0; while i < v.len() { let step = { acc += v[i]; acc < 20 }; if !step { break; } i += 1; } r + fm * 10 + keep as u64 * 10000 + i as u64 * 100000 }
 pub fn p10(a: u64, b: u64) -> u64 { #[derive(Debug)] enum Victim { Keyed(String), At(usize), Front } fn pick(q: &VecDeque<String>, mode: u64) -> Option<Victim> { match mode { 0 => (!q.is_empty()).then_some(Victim::Front), 1 => q.iter().position(|k| k.ends_with('9')).map(Victim::At), _ => q.iter().min().cloned().map(Victim::Keyed) } } fn evict(v: Victim, q: &mut VecDeque<String>) -> bool { match v { Victim::Front => q.pop_front().is_some(), Victim::At(i) if i < q.len() => q.remove(i).is_some(), Victim::At(_) => false, Victim::Keyed(k) => { let n = q.len(); q.retain(|x| *x != k); q.len() < n } } } let mut q = names(a, b); let done = pick(&q, a % 3).map_or(false, |v| evict(v, &mut q)); let again = loop { match pick(&q, 1) { Some(v) => { if !evict(v, &mut q) { break false; } } None => break true } }; done as u64 + again as u64 * 10 + q.len() as u64 * 100 }
+pub fn p11(a: u64, b: u64) -> u64 { fn lowest<S: PartialOrd + Copy, T>(items: &[T], ceiling: S, score: impl Fn(usize, &T) -> S) -> Option<usize> { let mut best = ceiling; let mut at = None; for (i, x) in items.iter().enumerate() { let s = score(i, x); if s < best { best = s; at = Some(i); } } at } fn same<T: PartialEq>(x: &T, y: &T) -> bool { x == y } fn smaller<T: Ord>(x: T, y: T) -> T { x.min(y) } let v = seq(a, b); let i1 = lowest(&v, u64::MAX, |_, x| *x).unwrap_or(9); let i2 = lowest(&v, f64::MAX, |i, x| *x as f64 * (i + 1) as f64).unwrap_or(9); let i3 = lowest(&v, 0u64, |_, x| *x); i1 as u64 + i2 as u64 * 10 + i3.is_none() as u64 * 100 + same(&v[0], &v[3]) as u64 * 1000 + smaller(a % 9, b % 9) * 10000 + same(&format!("k{}", a % 3), &"k1".to_string()) as u64 * 100000 }
 
 macro_rules! table4 { ($($n:literal => $f:ident),* $(,)?) => {
     pub fn run4(n: u32, a: u64, b: u64) -> Option<u64> { match n { $($n => Some($f(a, b)),)* _ => None } }
 } }
-table4! { 401 => l01, 402 => l02, 403 => l03, 404 => l04, 405 => l05, 406 => l06, 407 => l07, 408 => l08, 409 => l09, 410 => l10, 501 => n01, 502 => n02, 503 => n03, 504 => n04, 505 => n05, 506 => n06, 507 => n07, 508 => n08, 509 => n09, 510 => n10, 511 => n11, 512 => n12, 601 => p01, 602 => p02, 603 => p03, 604 => p04, 605 => p05, 606 => p06, 607 => p07, 608 => p08, 609 => p09, 610 => p10 }
+table4! { 401 => l01, 402 => l02, 403 => l03, 404 => l04, 405 => l05, 406 => l06, 407 => l07, 408 => l08, 409 => l09, 410 => l10, 501 => n01, 502 => n02, 503 => n03, 504 => n04, 505 => n05, 506 => n06, 507 => n07, 508 => n08, 509 => n09, 510 => n10, 511 => n11, 512 => n12, 601 => p01, 602 => p02, 603 => p03, 604 => p04, 605 => p05, 606 => p06, 607 => p07, 608 => p08, 609 => p09, 610 => p10, 611 => p11 }
